@@ -2344,11 +2344,11 @@ class Array:
                     i += 1
                     j += 1
                 elif i >= Na or j < Nb and aq_[i] > bq_[j]:  # a is 0
-                    data.append(func(np.zeros_like(bdata[j]), bdata[j]))
+                    data.append(func(np.zeros(bdata[j].shape, self.dtype), bdata[j]))  # zeros of the dtype of `self`
                     qdata.append(bq[j])
                     j += 1
                 elif j >= Nb or aq_[i] < bq_[j]:  # b is 0
-                    data.append(func(adata[i], np.zeros_like(adata[i])))
+                    data.append(func(adata[i], np.zeros(adata[i].shape, other.dtype)))
                     qdata.append(aq[i])
                     i += 1
                 else:  # tested a == b or a < b or a > b, so this should never happen
